@@ -1101,14 +1101,18 @@ where
             element_name,
             JSXElementName::Ident(ident) if self.fragment_aliases.contains(&ident.to_id())
         );
-        let should_transformed_to_slots = name != FRAGMENT
-            && !is_fragment_alias
-            && !self
-                .vue_imports
-                .get(FRAGMENT)
-                .map(|ident| &*ident.sym == name)
-                .unwrap_or_default()
-            && name != KEEP_ALIVE;
+        // the generated import of `Fragment` is recognised by binding, not by its spelling (`_Fragment`)
+        let is_imported_fragment = matches!(
+            element_name,
+            JSXElementName::Ident(ident)
+                if self
+                    .vue_imports
+                    .get(FRAGMENT)
+                    .map(|imported| imported.to_id() == ident.to_id())
+                    .unwrap_or_default()
+        );
+        let should_transformed_to_slots =
+            name != FRAGMENT && !is_fragment_alias && !is_imported_fragment && name != KEEP_ALIVE;
 
         if matches!(element_name, JSXElementName::JSXMemberExpr(..)) {
             should_transformed_to_slots
